@@ -36,7 +36,7 @@ CLAIMED = {
          "PARTIAL by nature: Go memory-model races on unsynchronised cache fills and real scheduler behaviour are outside the model; schedules are sampled, mutation marking is treated as atomic in Model H."),
  "C07": ("Lean proof of fault-injected Flush (any k-th write, any torn length): reported, changes nothing, keeps durable bytes, retry is ordinary; fault enumeration at every file call",
          "Theorems over the model's fault plan; the harness injects one fault at every individual ReadAt/WriteAt/Stat/Truncate (sampled in quick, all in thorough; torn writes of sampled/all lengths), continues the history, and compares (a) with the fault-aware model, (b) with the specification 'as if the failed call had never been made', plus heap-invariant checks after every failed call.",
-         "Read faults are modelled as 'no state change' (the model has no cache); their real-code effect is covered by enumeration."),
+         "Read faults are modelled as 'no state change' (the model has no cache); their real-code effect is covered by enumeration. KNOWN FINDING F14 (known_findings.json, corpus/F14): Exist(key) has no error result and answers false for a stored key when a read fails - the property is known to fail there; the check injects faults into Exist, prints KNOWN-FINDING for exactly that shape (failed call is an `exist`, answer `false`) and still reports every other failed call that reports success. EvictSomeItems (best-effort cache hint, no error result, no answer to get wrong) is not an injected operation."),
  "C09": ("Lean proof: Flush log beyond durable end, prefix unchanged (with faults), revert truncation; decide on regenerated call graph: no read-only entry reaches WriteAt/Truncate",
          "Dynamic theorems for every Flush/CopyTo/FlushRevert of the model; static theorem no_write_reachable over the call graph regenerated from /repo on every run (closure certificate checked in Lean), write_sites/truncate_sites equalities, tools/view read-only. The memfile's complete call log is checked call by call (appendcheck) and compared with the model's write log.",
          "Soundness of the translator's call graph (closures, method values, interface dispatch, json reflection edges) is trusted."),
